@@ -182,7 +182,7 @@ def atom_plus_const(p):
 def nonzero(st, p):
     if list(p.keys()) == [()]:
         return True
-    return key(p) in st.NZ
+    return key(p) in st.NZ or is_bot(st)
 
 
 def subst_state(q, st, M):
@@ -201,10 +201,15 @@ def subst_state(q, st, M):
     return psubst(q, f, M)
 
 
+def is_bot(st):
+    """unreachable: flagged, or claiming that the zero polynomial is non-zero (the checker's marker)"""
+    return st.bot or key({}) in st.NZ
+
+
 def entails_all(st, new, M):
     """failing facts of `new` (a state at a fresh anchor placed at the current point) in `st`"""
     bad = []
-    if st.bot:
+    if is_bot(st):
         return bad
     for k in st.cells() | set(new.Cb):
         if k in new.D:
@@ -332,7 +337,8 @@ def loop_hints(ir, code, fuse):
 
 
 class TV:
-    def __init__(self, w, ir, code, stats, fuse):
+    def __init__(self, w, ir, code, stats, fuse, optimistic=True):
+        self.optimistic = optimistic
         self.M = 1 << w
         self.ir = ir
         self.code = code
@@ -423,6 +429,8 @@ class TV:
         """heuristic: facts at a new anchor that are likely to hold in st and survive writes wc/wt"""
         M = self.M
         new = St(D=set(k for k in st.cells() if not st.agree(k)))
+        if is_bot(st):
+            new.NZ.add(key({}))     # stays unreachable
         rev = {}
         by_val = {}
         if not allc:
@@ -554,7 +562,7 @@ class TV:
             allc = allc or ia or shift != 0
             if is_loop:
                 self.stats["loop"] += 1
-                inv = self.candidate(st, wc, wt, allc, optimistic=True)
+                inv = self.candidate(st, wc, wt, allc, optimistic=self.optimistic)
                 inv.NZ.discard(key(patom(("c", cond)))); inv.NZ.discard(key(patom(("xi", cond))))
                 saved = self.loop_idx
                 while True:
@@ -593,7 +601,7 @@ class TV:
                         st = stb.copy(); st.bot = True      # the loop is never left
                 elif never_left_at_back_edge:
                     # left only at its guard: what held before the loop still holds after it
-                    exitf = self.candidate(st, set(), set(), False, optimistic=True)
+                    exitf = self.candidate(st, set(), set(), False, optimistic=self.optimistic)
                     while True:
                         why = entails(st, exitf, self.M)
                         if not why:
@@ -618,7 +626,7 @@ class TV:
                     stb = self.moved(stb, shift)
                 if pc2 != exit_pc:
                     raise Reject("if body does not end at the join (%d vs %d)" % (pc2, exit_pc))
-                join = self.candidate(st, wc, wt, allc, optimistic=True)
+                join = self.candidate(st, wc, wt, allc, optimistic=self.optimistic)
                 join.D |= set(k for k in stb.cells() if not stb.agree(k))
                 for k in join.D:
                     join.Ci.pop(k, None); join.Cb.pop(k, None)
@@ -694,9 +702,21 @@ def cert_text(cert):
 
 
 def validate(w, ir_text, bc_text, fuse):
+    """two search strategies: hoped-for facts first (and weakening), then only facts about
+    cells / temporaries the region does not write"""
+    v, st = validate_with(w, ir_text, bc_text, fuse, True)
+    if v != "ok":
+        v2, st2 = validate_with(w, ir_text, bc_text, fuse, False)
+        if v2 == "ok":
+            st2["strategy"] = "pessimistic"
+            return v2, st2
+    return v, st
+
+
+def validate_with(w, ir_text, bc_text, fuse, optimistic):
     stats = {"loop": 0, "if": 0, "scan": 0}
     try:
-        tv = TV(w, parse_ir(ir_text.split()), parse_bc(bc_text.split()), stats, fuse)
+        tv = TV(w, parse_ir(ir_text.split()), parse_bc(bc_text.split()), stats, fuse, optimistic)
         tv.run()
         stats["cert"] = cert_text(tv.cert)
         stats["zeros"] = " ".join(str(k) for k in tv.zeros)
